@@ -51,7 +51,7 @@ Theorem C07_open_inline_scopes_are_reported : forall cur f s, Exp.fmt s = Exp.FX
   (List.length (St.sinline s) <= f)%nat ->
   let s' := Proc1.close_inline_loop f cur s in
   exists ds, St.diags s' = (ds ++ St.diags s)%list /\ List.length ds = List.length (St.sinline s) /\
-             Forall (fun d => St.d_kind d = St.runes "unclosed scope") ds /\ St.sinline s' = [].
+             Forall (fun d => St.d_kind d = St.runes "unclosed scope") ds /\ St.sinline s' = [] /\ St.quiet s' = false.
 Proof. exact Unclosed.open_inline_scopes_are_reported. Qed.
 Theorem C07_closing_logs_nothing_under_quiet : forall s, Exp.fmt s = Exp.FX -> St.quiet s = true ->
   St.quiet (Proc1.macro_em s) = true /\ St.diags (Proc1.macro_em s) = St.diags s.
@@ -65,6 +65,15 @@ Theorem C07_open_blocks_are_reported : forall K BASE MD cur f s, FragB.P K BASE 
   exists ds, St.diags s' = (ds ++ St.diags s)%list /\ List.length ds = List.length (St.sblock s) /\
              Forall (fun d => St.d_kind d = St.runes "unclosed scope") ds /\ St.sblock s' = nil.
 Proof. exact Unclosed.open_blocks_are_reported. Qed.
+(* the scope-closing part of the sweep as a whole, from any state of that sub-language: exactly one "unclosed scope"
+   diagnostic per open inline scope and per open display block, nothing else, and nothing is left open - in particular
+   nothing at all is reported when nothing is open *)
+Theorem C07_sweep_reports_every_open_scope : forall K BASE MD s, FragB.P K BASE MD true s -> St.quiet s = false ->
+  let s' := Proc1.close_unclosed_block (Proc1.end_par Common.PNormal (Proc1.close_unclosed_inline s)) in
+  exists ds, St.diags s' = (ds ++ St.diags s)%list /\ List.length ds = (List.length (St.sinline s) + List.length (St.sblock s))%nat /\
+             Forall (fun d => St.d_kind d = St.runes "unclosed scope") ds /\ St.sblock s' = nil.
+Proof. exact Unclosed.sweep_reports_every_open_scope. Qed.
+Print Assumptions C07_sweep_reports_every_open_scope.
 Print Assumptions C07_open_blocks_are_reported.
 Print Assumptions C07_open_conditionals_are_reported.
 Print Assumptions C07_open_inline_scopes_are_reported.
